@@ -13,6 +13,15 @@ REALS_AXIOMS = ["ClassicalDedekindReals.sig_forall_dec", "ClassicalDedekindReals
                 "FunctionalExtensionality.functional_extensionality_dep"]
 
 PROPS = {
+    "C12": {
+        "drivers": [{"src": "drv_C12.C", "repo_sources": []}],
+        "coq": ["Tie_C12.v", "Properties_C12.v"],
+        "thm_files": ["Accum.v"],
+        "assumptions": ["order/grouping independence is proved over the reals; the floating-point discrepancy between orders is not bounded here",
+                        "zero-variance entries carry no weight by convention (as the property states)"],
+        "trusted_base": [],
+        "level_note": "Trusted: Coq kernel; Reals axioms; symx translator (validated each run). Partial: the rounding-aware comparison of different insertion orders is not proved (reals only). One clause is REFUTED and listed as a known finding: the circular mean at multiples of pi/2.",
+    },
     "C06": {
         "drivers": [{"src": "drv_C06.C", "repo_sources": ["mode.cpp", "sample.cpp", "square_modulated_mode.cpp", "util/Pauli.C"]}],
         "coq": ["Tie_C06.v", "Properties_C06.v"],
